@@ -49,7 +49,7 @@ pub fn expand(e: &Expr, st: &mut Stack, fuel: &mut i64) -> Result<Expr, String> 
         return Err("macro expansion does not terminate within the budget".into());
     }
     match e {
-        Expr::Path { .. } | Expr::Lit(_) | Expr::Sel(_) => Ok(e.clone()),
+        Expr::Path { .. } | Expr::Lit(_) | Expr::Sel(_) | Expr::Ctx(_) => Ok(e.clone()),
         Expr::Var(n) => Ok(match lookup_var(st, n) {
             Some(Bound::VarLit(t)) => Expr::Lit(t.clone()),
             _ => e.clone(),
